@@ -16,6 +16,7 @@ func setupTables(e *sym.Engine, st *sym.State, l *sym.Loaded) {
 	e.Redirects[qRetrieveNet] = l.Pkgs[modPath].Func("verifRetrieveNetworkRule")
 	e.Redirects[qMatchPattern] = l.Pkgs[modPath+"/rules"].Func("verifMatchPatternLiteral")
 	e.Redirects[qHashBetween] = l.Pkgs[modPath+"/filterutil"].Func("verifHashSummary")
+	e.InjectiveUF = "H/"
 }
 
 func c01Shape(specs ...[2]int) int64 {
@@ -80,6 +81,26 @@ func init() {
 			for _, p := range pairs {
 				add(2, c01Shape(p[0], p[1]), p[0][1] > 0 || p[1][1] > 0)
 			}
+			// shortcuts over {h,t,p,s,:,/,w}: the "any URL" shortcuts (http, https://, ws:, wss:) are kept out of the shortcut table
+			for _, sl := range []int{5, 6, 8} {
+				for _, ul := range []int64{6, 9} {
+					jobs = append(jobs, Job{Pkg: "root", Func: "verifC01", Args: []int64{1, c01Shape([2]int{sl, 0}), 104, ul, -1, 0}})
+				}
+			}
+			jobs = append(jobs, Job{Pkg: "root", Func: "verifC01", Args: []int64{2, c01Shape([2]int{5, 0}, [2]int{6, 0}), 104, 6, -1, 0}})
+			// three rules in the shortcut table (histogram choice) and a mix of all three tables
+			add3 := func(shape int64, needsSrc bool) {
+				for _, ul := range []int64{5, 6} {
+					s := [2]int64{-1, 0}
+					if needsSrc {
+						s = [2]int64{2, 1}
+					}
+					jobs = append(jobs, Job{Pkg: "root", Func: "verifC01", Args: []int64{3, shape, 4, ul, s[0], s[1]}})
+				}
+			}
+			add3(c01Shape([2]int{5, 0}, [2]int{5, 0}, [2]int{5, 0}), false)
+			add3(c01Shape([2]int{6, 0}, [2]int{5, 0}, [2]int{6, 0}), false)
+			add3(c01Shape([2]int{5, 0}, [2]int{0, 1}, [2]int{3, 0}), true)
 			if tier == "thorough" {
 				add(3, c01Shape([2]int{5, 0}, [2]int{5, 0}, [2]int{5, 0}), false)
 				add(3, c01Shape([2]int{5, 0}, [2]int{0, 1}, [2]int{3, 0}), true)
@@ -90,7 +111,7 @@ func init() {
 		AbstractHash: true,
 		MustReach: []string{"c01.match", "hash.lemma"},
 		Bounds: map[string]string{
-			"quick":    "1..2 rules with literal patterns: shortcut of 0,2,3,5,6,7 symbolic bytes over {a,b,:,/} (below, at and above the table's window length), 0..2 $domain values of 2 or 4 symbolic bytes over {z,q,.,*} (incl. wildcard TLD), distinct storage indexes; URL of 4,5,6,8 symbolic bytes (5,6 with two rules); source host absent or 1..4 symbolic bytes plus a PSL tail; the hash is an uninterpreted function of the window bytes (arbitrary collisions)",
+			"quick":    "1..3 rules with literal patterns (three rules with URLs of 5..6 bytes; URL-like shortcuts over {h,t,p,s,:,/,w} of 5,6,8 bytes): shortcut of 0,2,3,5,6,7 symbolic bytes over {a,b,:,/} (below, at and above the table's window length), 0..2 $domain values of 2 or 4 symbolic bytes over {z,q,.,*} (incl. wildcard TLD), distinct storage indexes; URL of 4,5,6,8 symbolic bytes (5,6 with two rules); source host absent or 1..4 symbolic bytes plus a PSL tail; the hash is an uninterpreted function of the window bytes (arbitrary collisions)",
 			"thorough": "up to 3 rules, URLs up to 11 bytes, more shape pairs and source hosts",
 		},
 		Outside:     []string{"rule storage and parser (perfect storage stub; C11, C13)", "the compiled pattern (literal patterns: accepts iff the lower-cased URL contains the literal; C03)", "real djb2 collisions as opposed to arbitrary ones: a counterexample that needs a collision cannot be replayed natively and is reported as a note", "more than 3 rules, longer URLs, other modifiers than $domain"},
